@@ -14,6 +14,7 @@ statements quantify over every dataset, every script of random draws and every
 schedule.
 -/
 import FDAProofs.Lemmas.Simulation
+import FDAModel.Generated.SimBodies
 
 namespace C20
 open FDA.Sim
@@ -444,5 +445,98 @@ theorem coded_swap_counterexample_fault :
       (run (combinedCoded false 1 [[[1, 1]]] 1 0 [[⟨0, [0, 0], (0, 0)⟩]]) sim (some k)).2.sim.data ≠ sim.data := by
   refine ⟨{ data := some (.uni ⟨[[0, 1]], [[1, 2]]⟩) }, 20, ?_⟩
   decide +kernel
+
+/-! ### the model is what the source says NOW
+
+`FDAModel/Generated/SimBodies.lean` is re-generated on every run from `FDApy/simulation/simulation.py`
+(`harness/c20_translate.py`, syntax only): the bodies of `add_noise`, `sparsify`, `add_noise_and_sparsify`
+statement by statement in the statement language `FDA.PySim` (whose meaning is the state machine of
+`FDAModel/Simulation.lean`), and the formulas of the two helpers.  The theorems below prove that the
+generated bodies ARE the model's operations — as functions of the whole state, fault schedule
+included, so for a failure injected at any fault point of any statement — and hence that every
+theorem above is about the code as it is written now. -/
+
+section Generated
+open FDA.PySim FDA.Generated.SimBodies
+
+/-- `add_noise` as written = the model's `addNoise` (every state, every fault schedule). -/
+theorem generated_add_noise_eq_model (P : Params) : addNoiseM P bodies = addNoise P.r P.zs := by
+  unfold addNoiseM addNoise bodyM
+  simp only [bodies, addNoiseBody, execBody, execStmt, execSimple, M_bind_assoc, M_pure_bind]
+  rfl
+
+/-- `sparsify` as written = the model's `sparsify`. -/
+theorem generated_sparsify_eq_model (P : Params) : sparsifyM P bodies = sparsify P.repl P.p P.e P.ss := by
+  unfold sparsifyM sparsify bodyM
+  simp only [bodies, sparsifyBody, execBody, execStmt, execSimple, M_bind_assoc, M_pure_bind]
+  rfl
+
+/-- `add_noise_and_sparsify` as written (call `add_noise`; save `data`; put the noisy data in its place;
+`try: sparsify finally: restore`) = the model's `combined`: same result and same simulator after EVERY
+schedule, i.e. with a failure injected at any fault point of any statement. -/
+theorem generated_combined_eq_model (P : Params) :
+    combinedM P bodies = combined P.repl P.r P.zs P.p P.e P.ss := by
+  have ha := generated_add_noise_eq_model P
+  have hs := generated_sparsify_eq_model P
+  unfold combinedM bodyM combined
+  simp only [bodies, combinedBody, execBody, execStmt, execSimples, execSimple, M_bind_assoc, M_pure_bind] at ha hs ⊢
+  simp only [ha, hs]
+  funext st
+  rcases h : addNoise P.r P.zs st with ⟨r, st1⟩
+  cases r with
+  | error e => rw [bind_err h, bind_err h]
+  | ok u =>
+    rw [bind_ok h, bind_ok h]
+    simp only [Bind.bind, M.bind, getSim, setData, Pure.pure, M.pure, FDA.Sim.tryFinally]
+    rcases hsp : sparsify P.repl P.p P.e P.ss
+      { sim := { data := st1.sim.noisy, noisy := st1.sim.noisy, sparse := st1.sim.sparse }, sc := st1.sc } with ⟨r2, st3⟩
+    cases r2 <;> simp
+
+/-- hence: the body of `add_noise_and_sparsify` AS WRITTEN restores the clean data whatever happens -/
+theorem generated_data_restored (P : Params) (st : St) : ((combinedM P bodies) st).2.sim.data = st.sim.data := by
+  rw [generated_combined_eq_model]
+  exact data_restored P.repl P.r P.zs P.p P.e P.ss st
+
+/-- A body that puts the noisy data in place of `data` and restores them only after `sparsify` returned
+(no `finally`) is NOT the model's operation: on 2-D data the two differ.  (What a translated
+unprotected swap, or a double swap, would make of the obligation above.) -/
+theorem unprotected_swap_differs :
+    ∃ (P : Params) (st : St),
+      (combinedM P ⟨addNoiseBody, sparsifyBody, [.s .callAddNoise, .s .saveData, .s .setDataNoisy, .s .callSparsify, .s .restoreData]⟩ st).2.sim.data
+        ≠ (combined P.repl P.r P.zs P.p P.e P.ss st).2.sim.data := by
+  refine ⟨⟨false, 1, [[[1, 1, 1, 1]]], 1, 0, []⟩, ⟨{ data := some (.uni ⟨[[0, 1], [0, 1]], [[1, 2, 3, 4]]⟩) }, {}⟩, ?_⟩
+  decide +kernel
+
+/-- `_add_noise_univariate_data` as written: a noisy sample is `x + std · draw` with `std² = variance`, the
+draws are standard normal (`loc = 0`, `scale = 1`), on the grid of the source — the payload `addScaled`. -/
+theorem generated_noise_formula (s x z : Rat) :
+    noiseEntrySrc s x z = x + s * z ∧ noiseStdIsSqrtOfVariance = true ∧ noiseDrawLoc = 0 ∧ noiseDrawScale = 1 ∧
+      noiseKeepsSourceGrid = true := by
+  refine ⟨by unfold noiseEntrySrc; ring, rfl, rfl, rfl, rfl⟩
+
+/-- … so entry `(i, j)` of the model's noisy values is the source formula applied to source value and draw -/
+theorem generated_noise_entry (r : Rat) (X Z : List (List Rat)) (i j : Nat) (x z : Rat)
+    (hx : entry X i j = some x) (hz : entry Z i j = some z) :
+    entry (addScaled r X Z) i j = some (noiseEntrySrc r x z) := by
+  rw [(generated_noise_formula r x z).1]
+  exact noise_difference r X Z i j x z hx hz
+
+/-- `_sparsify_univariate_data` as written: bounds of the retained percentage, probabilities of the mask
+(`keep = perc`, `drop = 1 − perc`: a sample is kept iff `1 − perc ≤ u`), fallback when fewer than 2 are
+kept, 2 indices, WITHOUT replacement, dropped samples NaN — the model's `percLo`, `percHi`, `maskOf`,
+`finalMask` / `pairIdx`, `applyMask`. -/
+theorem generated_sparsify_formulas (p e perc : Rat) :
+    percLoSrc p e = percLo p e ∧ percHiSrc p e = percHi p e ∧ maskKeepProbSrc perc = perc ∧
+      maskDropProbSrc perc = 1 - perc ∧ fallbackThresholdSrc = 2 ∧ fallbackSizeSrc = 2 ∧ fallbackReplaceSrc = false ∧
+      droppedAreNaN = true :=
+  ⟨rfl, rfl, rfl, rfl, rfl, rfl, rfl, rfl⟩
+
+/-- the at-least-two rule with the constants of the source: the fallback is taken exactly when fewer than
+`fallbackThresholdSrc` samples are kept -/
+theorem generated_fallback_rule (perc : Rat) (mu : List Rat) (pr : Nat × Nat) :
+    finalMask perc mu pr =
+      (if countTrue (maskOf perc mu) < fallbackThresholdSrc then setPair (maskOf perc mu) (pairIdx pr) else maskOf perc mu) := rfl
+
+end Generated
 
 end C20
